@@ -434,7 +434,10 @@ def apply_op(ix, op):
                 data = {}
                 for src, tgts in op["data"]:
                     data[src] = list(tgts)
-                res.update(report_dict(t.index_batch_crawl(data)))
+                if op.get("yf"):
+                    res.update(report_dict(t.index_batch_crawl(data, yield_frequency=op["yf"])))
+                else:
+                    res.update(report_dict(t.index_batch_crawl(data)))
             elif name == "CreateWe":
                 res.update(report_dict(t.create_webentity(list(op["ps"]))))
             elif name == "DeleteWe":
